@@ -8,6 +8,7 @@ import (
 	"encoding/base64"
 	"encoding/json"
 	"fmt"
+	"io"
 	"io/ioutil"
 	"os"
 	"path/filepath"
@@ -532,7 +533,7 @@ func (b *Builder) ensureRemotePackage(ctx context.Context, pkgAddr sourceaddrs.R
 	// to learn about the checksum. External callers are forbidden from relying
 	// on it though, so you only have to worry about making the internals of
 	// this package self-consistent in how they deal with naming and hashes.
-	hash, err := dirhash.HashDir(workDir, "", dirhash.Hash1)
+	hash, err := hashPackageDir(workDir)
 	if err != nil {
 		return "", fmt.Errorf("failed to calculate package checksum: %w", err)
 	}
@@ -574,6 +575,27 @@ func (b *Builder) ensureRemotePackage(ctx context.Context, pkgAddr sourceaddrs.R
 	}
 
 	return dirName, nil
+}
+
+// hashPackageDir is dirhash.HashDir with one difference: a symlink to a
+// directory, which is a valid member of a package but cannot be read as a
+// file, contributes its target text instead of making the hash fail.
+func hashPackageDir(dir string) (string, error) {
+	files, err := dirhash.DirFiles(dir, "")
+	if err != nil {
+		return "", err
+	}
+	return dirhash.Hash1(files, func(name string) (io.ReadCloser, error) {
+		path := filepath.Join(dir, name)
+		if info, err := os.Stat(path); err == nil && info.IsDir() {
+			target, err := os.Readlink(path)
+			if err != nil {
+				return nil, err
+			}
+			return io.NopCloser(strings.NewReader("symlink to directory " + target)), nil
+		}
+		return os.Open(path)
+	})
 }
 
 func (b *Builder) writeManifest(filename string) error {
